@@ -142,18 +142,50 @@ def gen_expr(rng, ctx, srname, params, depth, budget, top=False):
     body, fb = gen_expr(rng, ctx, srname, params, depth - 1, budget)
     if not fb:
         return body, fb
+    # simultaneous multi-binding substitutions: swaps i<->j, chains i->j->m, diagonals (the value of one binding
+    # is the key of another), mixed with numbers and index tensors
+    groups = {}
+    for n, sz in ctx.items():
+        groups.setdefault(sz, []).append(n)
+    groups = [g for g in groups.values() if len(g) >= 2 and any(n in fb for n in g)]
+    if groups and rng.random() < 0.5:
+        g = list(rng.choice(groups))
+        rng.shuffle(g)
+        size = ctx[g[0]]
+        keys = [n for n in g if n in fb][: rng.choice([2, 2, 3])]
+        subs = []
+        free = set(fb) - set(keys)
+        for k in keys:
+            r = rng.random()
+            if r < 0.7:
+                nxt = g[(g.index(k) + 1) % len(g)]          # rotation of the group: swap for 2 names, cycle / chain for 3+
+                subs.append((k, ("var", nxt, size)))
+                free.add(nxt)
+            elif r < 0.85:
+                subs.append((k, ("int", rng.randrange(size), size)))
+            else:
+                src = rng.choice(list(ctx))
+                subs.append((k, ("idx", src, tuple(rng.randrange(size) for _ in range(ctx[src])), size)))
+                free.add(src)
+        rng.shuffle(subs)
+        return ("subs", body, tuple(subs)), free
     keys = [n for n in sorted(fb) if rng.random() < 0.5] or [rng.choice(sorted(fb))]
     subs = []
     free = set(fb) - set(keys)
     for k in keys:
         size = ctx[k]
         cands = [n for n, s in ctx.items() if s == size and n != k]
-        if cands and rng.random() < 0.6:
+        r = rng.random()
+        if cands and r < 0.6:
             n = rng.choice(cands)
             subs.append((k, ("var", n, size)))
             free.add(n)
-        else:
+        elif r < 0.88:
             subs.append((k, ("int", rng.randrange(size), size)))
+        else:
+            src = rng.choice(list(ctx))
+            subs.append((k, ("idx", src, tuple(rng.randrange(size) for _ in range(ctx[src])), size)))
+            free.add(src)
     return ("subs", body, tuple(subs)), free
 
 
@@ -161,6 +193,9 @@ def gen_case(rng, tier):
     srname = rng.choice(SR_WEIGHTS)
     nn = rng.choice([1, 2, 2, 3, 3, 4])
     ctx = OrderedDict((n, rng.choice([1, 2, 2, 3, 3, 4])) for n in NAMES[:nn])
+    if rng.random() < 0.35:       # equal sizes: renamings between any two inputs are well typed
+        sz = rng.choice([2, 2, 3])
+        ctx = OrderedDict((n, sz) for n in ctx)
     params = []
     if srname not in ("or-and",) and rng.random() < 0.25:
         params = PARAMS[: rng.choice([1, 1, 2])]
@@ -214,6 +249,28 @@ def recipe_tags(r, acc=None):
     return acc
 
 
+def subs_nodes(r, acc=None):
+    """the binding lists of all substitution nodes of a recipe"""
+    acc = acc if acc is not None else []
+    if r[0] == "subs":
+        acc.append(r[2])
+        subs_nodes(r[1], acc)
+    elif r[0] in ("prod", "plus"):
+        for p in r[1]:
+            subs_nodes(p, acc)
+    elif r[0] == "sum":
+        subs_nodes(r[3], acc)
+    elif r[0] == "contraction":
+        for p in r[2]:
+            subs_nodes(p, acc)
+    elif r[0] == "neg":
+        subs_nodes(r[1], acc)
+    elif r[0] == "minus":
+        subs_nodes(r[1], acc)
+        subs_nodes(r[2], acc)
+    return acc
+
+
 def fold(op, xs):
     out = xs[0]
     for x in xs[1:]:
@@ -261,7 +318,12 @@ def build(r, srname, ctx, linear=False):
         body = build(r[1], srname, ctx, linear)
         kw = {}
         for k, v in r[2]:
-            kw[k] = Variable(v[1], Bint[v[2]]) if v[0] == "var" else Number(v[1], v[2])
+            if v[0] == "var":
+                kw[k] = Variable(v[1], Bint[v[2]])
+            elif v[0] == "idx":
+                kw[k] = Tensor(np.array(v[2], dtype=np.int64), OrderedDict([(v[1], Bint[ctx[v[1]]])]), v[3])
+            else:
+                kw[k] = Number(v[1], v[2])
         return body(**kw)
     raise ValueError(tag)
 
@@ -289,8 +351,13 @@ def python_of(r, ctx):
     if tag == "neg":
         return f"(-({python_of(r[1], ctx)}))"
     if tag == "subs":
-        kw = ", ".join(f"{k!r}: " + (f"Variable({v[1]!r}, Bint[{v[2]}])" if v[0] == "var" else f"Number({v[1]}, {v[2]})")
-                       for k, v in r[2])
+        def arg(v):
+            if v[0] == "var":
+                return f"Variable({v[1]!r}, Bint[{v[2]}])"
+            if v[0] == "idx":
+                return f"Tensor(np.array({list(v[2])!r}), OrderedDict([({v[1]!r}, Bint[{ctx[v[1]]}])]), {v[3]})"
+            return f"Number({v[1]}, {v[2]})"
+        kw = ", ".join(f"{k!r}: " + arg(v) for k, v in r[2])
         return f"({python_of(r[1], ctx)})(**{{{kw}}})"
     raise ValueError(tag)
 
@@ -340,6 +407,11 @@ def replay_python(case, stage, ins, expected):
           "optimizer": "r = apply_optimizer(x)\n",
           "optimizer-lazy": "with lazy:\n    o = apply_optimizer(x)\nr = reinterpret(o)\n",
           "optimizer-term": "with lazy:\n    o = apply_optimizer(x)\nr = reinterpret(o)\n",
+          "normalize-direct": f"with normalize:\n    d = {python_of(case['recipe'], case['ctx'])}\nr = reinterpret(d)\n",
+          "normalize-direct-term": f"with normalize:\n    d = {python_of(case['recipe'], case['ctx'])}\nr = reinterpret(d)\n",
+          "unfold-direct": f"from funsor.optimizer import unfold\nwith unfold:\n    d = {python_of(case['recipe'], case['ctx'])}\nr = reinterpret(d)\n",
+          "unfold-direct-term": f"from funsor.optimizer import unfold\nwith unfold:\n    d = {python_of(case['recipe'], case['ctx'])}\nr = reinterpret(d)\n",
+          "normalize-direct-optimizer": f"with normalize:\n    d = {python_of(case['recipe'], case['ctx'])}\nr = apply_optimizer(d)\n",
           }.get(stage, "r = apply_optimizer(x)\n")
     env = dict(case["params"])
     if kind == "log":
@@ -538,7 +610,8 @@ def bint_inputs(f):
 
 ABSENT_POOL = []   # clean-stream candidates that fell into the region of KF-contraction-absent-var
 
-STAGES = ["naive-eager", "reinterpret", "normalize", "optimizer", "optimizer-lazy"]
+STAGES = ["naive-eager", "reinterpret", "normalize", "optimizer", "optimizer-lazy",
+          "normalize-direct", "unfold-direct", "normalize-direct-optimizer"]
 
 
 def run_impl(case):
@@ -582,6 +655,31 @@ def run_impl(case):
         out["terms"]["optimizer-lazy"] = o
         return reinterpret(o)
     stage("optimizer-lazy", opt_lazy)
+
+    # the same expression WRITTEN DIRECTLY under the normalize / unfold interpretations (binder and
+    # substitution keys are then the user's names, not alpha-mangled ones), then evaluated
+    def norm_direct():
+        with normalize:
+            d = build(recipe, srname, ctx)
+            d2 = reinterpret(d)
+        out["terms"]["normalize-direct"] = d
+        out["direct"] = d
+        out["norm_direct_identical"] = d2 is d
+        return reinterpret(d)
+    stage("normalize-direct", norm_direct)
+
+    def unfold_direct():
+        with fopt.unfold:
+            d = build(recipe, srname, ctx)
+        out["terms"]["unfold-direct"] = d
+        return reinterpret(d)
+    stage("unfold-direct", unfold_direct)
+
+    def norm_direct_opt():
+        if "direct" not in out:
+            raise NotImplementedError("no direct normal form")
+        return apply_optimizer(out["direct"])
+    stage("normalize-direct-optimizer", norm_direct_opt)
     return out
 
 
@@ -722,6 +820,14 @@ def check_cases(ctx, cases, label="clean"):
             ctx.count(f"has:{tg}")
         if case["params"]:
             ctx.count("with-real-params")
+        for sub in subs_nodes(case["recipe"]):
+            keys = [k for k, _ in sub]
+            if len(sub) >= 2:
+                ctx.count("subs:multi-binding")
+            if any(v[0] == "var" and v[1] in keys and v[1] != k for k, v in sub):
+                ctx.count("subs:value-is-another-key(swap/chain)")
+            if any(v[0] == "idx" for _, v in sub):
+                ctx.count("subs:index-tensor")
         try:
             spec = model_values(answers[job["spec_req"]])
         except RuntimeError as e:
@@ -776,6 +882,12 @@ def check_cases(ctx, cases, label="clean"):
             ctx.fail("input", "C08.normalize-not-identical", witness=describe(case),
                      expected="reinterpret(n) is n under normalize for the normalised n", got="a different object",
                      python=replay_python(case, "normalize-identity", ins, None))
+        if "norm_direct_identical" in res and not res["norm_direct_identical"]:
+            ok_all = False
+            nfail += 1
+            ctx.fail("input", "C08.normalize-direct-not-identical", witness=describe(case),
+                     expected="reinterpret(n) is n under normalize for n built directly under normalize",
+                     got="a different object", python=replay_python(case, "normalize-direct", ins, spec))
         for name, idx, t in job["extra"]:
             try:
                 mv = model_values(answers[idx])
@@ -981,7 +1093,7 @@ def oracle(recipe, srname, ctx, env_lin):
         if tag == "subs":
             p2 = dict(pt)
             for k, v in r[2]:
-                p2[k] = pt[v[1]] if v[0] == "var" else v[1]
+                p2[k] = pt[v[1]] if v[0] == "var" else (v[2][pt[v[1]]] if v[0] == "idx" else v[1])
             return ev(r[1], p2)
         raise ValueError(tag)
     return ev
